@@ -101,6 +101,12 @@ def run(ctx):
     # ElGamal transcript + generator (from C14)
     sub = _Sub(ctx, ("E5.transcript", "E3.transcript", "E5.generator", "E1.enc_dst", "E5.response", "E5.response.anchor"))
     C14.run(sub)
+    # proof-of-knowledge and validity equations (from C10 / C11 / C12)
+    from . import equations as EQ
+
+    EQ.check_pok_equations(ctx, "E5.equation", P)
+    EQ.check_pairing_equation(ctx, "E5.equation", P, "BlsSignCrypt::valid", {("w", "G"): -1, ("cw", "u"): 1}, "e(w, -G) * e(compute_w(u, v, dst), u)")
+    EQ.check_pairing_equation(ctx, "E5.equation", P, "BlsSignCrypt::verify_share", {("cw", "share"): -1, ("w", "pk"): 1}, "e(-compute_w(u, v, dst), share) * e(w, pk)")
     # augmentation / PoP framing (shared with C03)
     K.check_core_table(ctx, P, methods=("sign", "partial_sign", "verify", "partial_verify", "pop_prove", "pop_verify", "multi_sig_verify"))
     K.check_hash_to_point_routing(ctx, P)
